@@ -27,7 +27,7 @@ ASSUMPTIONS = ['curve points are compared with 10^model_fluxes mJy x nu in erg/c
                'apertures are generated with >= 2 distinct values so that "smallest" and "largest" differ',
                'aperture radii are kept below the largest tabulated aperture by >= 2 % (the 0.999 clamp of interpolate_variable is outside the statement)']
 PROBES = ['mode_interp', 'mode_largest', 'mode_largest+smallest', 'mode_all', 'multi_aperture', 'single_aperture', 'channel_path', 'channel_obj',
-          'consumer_before_plot', 'plot_memmap_off', 'f4_storage', 'fewer_models_than_requested', 'best_fit_last_checked', 'wavelengths_in_other_unit', 'prelude_epoch', 'filters_not_in_wavelength_order', 'aperture_beyond_table_judged', 'finely_sampled_sed']
+          'consumer_before_plot', 'plot_memmap_off', 'f4_storage', 'fewer_models_than_requested', 'best_fit_last_checked', 'wavelengths_in_other_unit', 'prelude_epoch', 'filters_not_in_wavelength_order', 'aperture_beyond_table_judged', 'finely_sampled_sed', 'every_tabulated_wavelength_fitted']
 
 
 def budgets(tier):
@@ -44,6 +44,10 @@ def generate(rng, tier, idx):
         w['n_wav'] = rng.choice([1030, 1100, 1500, 2100, 4200])
         w['n_models'] = min(w['n_models'], 3)
     nf = rng.randint(2, min(5, w['n_wav']))
+    if w['n_wav'] < 1000 and rng.random() < 0.1:
+        # a grid tabulated at the survey bands only: every tabulated wavelength is fitted, each exactly once
+        w['n_wav'] = rng.randint(2, 5)
+        nf = w['n_wav']
     sc = {'world': w, 'nf': nf, 'idx_seed': rng.randrange(1 << 30), 'theta_seed': rng.randrange(1 << 30), 'fit_memmap': rng.random() < 0.5,
           'av_range': [rng.choice([0.0, 0.0, -3.0, -0.5, 1.0]), round(rng.uniform(2, 15), 2)], 'source_seed': rng.randrange(1 << 30),
           'dmin': float('%.4g' % (10 ** rng.uniform(-1, 0.3))), 'dspan': float('%.4g' % (10 ** rng.uniform(0, 0.3))),
@@ -145,6 +149,8 @@ def _execute(sc, sim, out):
         out.probe('f4_storage')
     if W.n_wav > 1000:
         out.probe('finely_sampled_sed')
+    if nf == W.n_wav:
+        out.probe('every_tabulated_wavelength_fitted')
     wunit = u.Unit(sc.get('wav_unit', 'micron'))
     if sc.get('wav_unit', 'micron') != 'micron':
         out.probe('wavelengths_in_other_unit')
